@@ -1327,4 +1327,54 @@ def r01_7(ctx):
     return out
 
 
-RULES = [r01_1, r01_2, r01_3, r01_4, r01_5, r01_6, r01_7]
+def r01_8(ctx):
+    """abstract run (W) of follow_path: from the selected start pieces to result curves.  Worlds: the two-crossing
+    chains of R01.7 (two loops of four and three pieces) and two lenses (curves of two curved pieces each, crossing at
+    X and Y), whose result loops have exactly two pieces."""
+    from verifkit.finite import Raised
+    out = Outcome("R01.8", "follow_path builds one result curve per distinct loop of selected pieces (rotations of one "
+                           "loop counted once), from exactly the pieces of the loop in order -- also loops of two "
+                           "curved pieces", floor=2)
+    fn = ctx.fn("shape.FollowPath.follow_path")
+    P0, P1, Q0, X, Y = (_NP(n) for n in ("P0", "P1", "Q0", "X", "Y"))
+    worlds = {
+        "two chains crossing twice, union-like selection": (
+            (_CurveP("J0", [P0, X, P1, Y]), _CurveP("J1", [X, Y, Q0])), [(0, 1), (0, 2), (1, 1), (1, 2)],
+            [("J0s1", "J0s2", "J1s1", "J1s2")]),
+        "two chains crossing twice, both loops selected": (
+            (_CurveP("J0", [P0, X, P1, Y]), _CurveP("J1", [X, Y, Q0])), [(0, 1), (1, 0), (0, 3)],
+            [("J0s1", "J0s2", "J1s1", "J1s2"), ("J1s0", "J0s3", "J0s0")]),
+        "two lenses: loops of two pieces": (
+            (_CurveP("L0", [X, Y]), _CurveP("L1", [X, Y])), [(0, 0), (1, 1)], [("L0s0", "L1s1")]),
+        "two lenses, the other pair": (
+            (_CurveP("L0", [X, Y]), _CurveP("L1", [X, Y])), [(1, 0), (0, 1)], [("L1s0", "L0s1")]),
+    }
+
+    def hook(rn, ev, call, cname, recv, args, kwargs):
+        if cname == "isinstance":
+            return True
+        if cname in ("copy", "deepcopy") and args:
+            return args[0]
+        if cname == "from_segments":
+            return ("CURVE", tuple(str(sg) for sg in args[0]))
+        return NotImplemented
+
+    def canon(loop):
+        k = loop.index(min(loop))
+        return tuple(loop[k:] + loop[:k])
+    for label, (jordans, starts, want) in worlds.items():
+        try:
+            got = Runner(ctx, set(), hook).call_fn(fn, [tuple(jordans), tuple(starts)])
+        except (Undecided, Raised) as ex:
+            out.undecided(fn.qname, f"{label}: {ex}", where=fn.where())
+            continue
+        loops = sorted(canon(list(c[1])) for c in got if isinstance(c, tuple) and c and c[0] == "CURVE")
+        if loops == sorted(canon(list(w)) for w in want):
+            out.ok(fn.qname, f"{label} -> {len(loops)} curve(s)", where=fn.where())
+        else:
+            out.bad(fn.qname, "the result curves are not the loops of the selected pieces", where=fn.where(),
+                    detail=f"{label}: start pieces {starts} give {loops}, required {sorted(map(list, want))}")
+    return out
+
+
+RULES = [r01_1, r01_2, r01_3, r01_4, r01_5, r01_6, r01_7, r01_8]
